@@ -34,7 +34,8 @@ impl Canon {
     }
     fn pep440(&self) -> String {
         let mut s = String::new();
-        if let Some(e) = &self.epoch { s.push_str(e); s.push('!'); }
+        // PEP 440 normal form drops an epoch of 0
+        if let Some(e) = &self.epoch { if e != "0" { s.push_str(e); s.push('!'); } }
         s.push_str(&self.core.join("."));
         if let Some((l, n)) = &self.pre { s.push_str(match *l { "alpha" => "a", "beta" => "b", _ => "rc" }); s.push_str(n); }
         if let Some(p) = &self.post { s.push_str(".post"); s.push_str(p); }
@@ -86,7 +87,9 @@ fn judge_canon(ctx: &Ctx, c: &Canon, st: &mut Stats) {
     step("semver_to_semver_auto", &s, "auto", "semver", &s, fits64, st);
     if let Some(pp) = step("semver_to_pep440", &s, "semver", "pep440", &p, fits32, st) {
         if pp == p {
-            step("pep440_back_to_semver", &pp, "pep440", "semver", &s, fits32, st);
+            // an explicit epoch 0 is a SemVer-side spelling only: PEP 440 drops it, so the way back yields the version without it
+            let back = if c.epoch.as_deref() == Some("0") { let mut c2 = Canon { core: c.core.clone(), epoch: None, pre: c.pre.clone(), post: c.post.clone(), dev: c.dev.clone(), build: c.build }; c2.epoch = None; c2.semver() } else { s.clone() };
+            step("pep440_back_to_semver", &pp, "pep440", "semver", &back, fits32, st);
             step("pep440_fixed_point", &pp, "pep440", "pep440", &pp, fits32, st);
         }
     }
@@ -180,7 +183,7 @@ fn judge_semver_fixed_point(ctx: &Ctx, s: &str, st: &mut Stats) {
 fn canon_space(quick: bool) -> Vec<Canon> {
     let m32 = "4294967295";
     let nums: Vec<&str> = if quick { vec!["0", "1", m32] } else { vec!["0", "1", "10", m32] };
-    let epochs: Vec<Option<&str>> = vec![None, Some("1"), Some("7"), Some(m32)];
+    let epochs: Vec<Option<&str>> = vec![None, Some("0"), Some("1"), Some("7"), Some(m32)];
     let mut pres: Vec<Option<(&'static str, &str)>> = vec![None];
     for l in ["alpha", "beta", "rc"] { for n in ["0", "1", m32] { pres.push(Some((l, n))); } }
     let posts: Vec<Option<&str>> = vec![None, Some("0"), Some("5"), Some(m32)];
